@@ -662,3 +662,196 @@ class _insert_multiple(Contract):
     @staticmethod
     def ensures(c):
         return _insert_helper.ensures(c)
+
+
+# ---------------------------------------------------------------- update
+
+UPD_ARGS = ("time", "measurement", "tags", "fields", "unset_fields", "unset_tags")
+bad_update_args = z3.Function("bad_update_args", *([sort_of(AnyV)] * 6 + [z3.BoolSort()]))  # _generate_updater rejects the static arguments
+updater_of = z3.Function("updater_of", *([sort_of(AnyV)] * 6 + [sort_of(Upd)]))
+
+
+@contract(_TF + "_generate_updater")
+class _generate_updater(Contract):
+    """INTERFACE contract (not yet proved against its body): static arguments are validated before
+    anything else; the returned closure is a function of the arguments only."""
+    params = dict(self=DB, query=Q, time=AnyV, measurement=AnyV, tags=AnyV, fields=AnyV, unset_fields=AnyV, unset_tags=AnyV)
+    ret = Upd
+    assumed = True
+    raises = {"ValueError": staticmethod(lambda c: dict(when=bad_update_args(*[getattr(c, a).t for a in UPD_ARGS])))}
+
+    @staticmethod
+    def ensures(c):
+        return [("closure_of_arguments", c.result.t == updater_of(*[getattr(c, a).t for a in UPD_ARGS]))]
+
+
+def updated_view(items1, items0, C, u):
+    """C03 whole-view postcondition: same length and order; changed selected points replaced by their update, all others untouched"""
+    i = z3.Int(fresh_name("i"))
+    n = l_len(items0)
+    return [
+        ("length_and_order_kept", l_len(items1) == n),
+        ("changed_points_updated", forall([i], z3.Implies(z3.And(0 <= i, i < n, z3.Select(C, i)), dec(l_at(items1, i)) == upd_result(u, dec(l_at(items0, i)))),
+                                          patterns=[l_at(items1, i), z3.Select(C, i)])),
+        ("other_points_untouched", forall([i], z3.Implies(z3.And(0 <= i, i < n, z3.Not(z3.Select(C, i))), l_at(items1, i) == l_at(items0, i)),
+                                          patterns=[l_at(items1, i), z3.Select(C, i)])),
+    ]
+
+
+@contract(_TF + "_update_helper")
+class _update_helper(Contract):
+    """C03/C11: exactly the selected points that actually change are rewritten; count = number changed;
+    nothing changes when nothing changes or when the update raises."""
+    params = dict(self=DB, update_all=TBool, query=Q, time=AnyV, measurement=AnyV, tags=AnyV, fields=AnyV, _measurement=OStr, unset_fields=AnyV, unset_tags=AnyV)
+    ret = TInt
+    modifies = ("_storage", "_index")
+    theories = ("queries", "dbqueries", "count", "count_lemmas", "count_lemmas2")
+    ghost_after = [("index_rst = self._index.search", "__cut__('index_is_selection')")]
+    cuts = {"index_is_selection": lambda c: [("sets_equal", c.index_rst.t["_items"].t == c.Asel.t)]}
+
+    @staticmethod
+    def requires(c):
+        return dbinv(c.self) + _wfquery(c) + [("index_valid_when_auto", z3.Implies(c.self.t["_auto_index"].t, c.self.t["_index"].t["_valid"].t)),
+                                              ("update_all_has_no_filter", z3.Implies(c.update_all.t, z3.Not(truthy_opt_str(c._measurement))))]
+
+    @staticmethod
+    def _u(c):
+        return updater_of(*[getattr(c, a).t for a in UPD_ARGS])
+
+    @staticmethod
+    def ghost_defs(c):
+        items = c.self.t["_storage"].t["items"].t
+        A0, facts = selected_set(c.self, c.query, c._measurement)
+        # update_all selects every position
+        A = z3.Const(fresh_name("Aupd"), sort_of(SInt))
+        i = z3.Int(fresh_name("i"))
+        fa = forall([i], z3.Select(A, i) == z3.If(c.update_all.t, z3.And(0 <= i, i < l_len(items)), z3.Select(A0.t, i)), patterns=[z3.Select(A, i), l_at(items, i)])
+        C, cfacts = changed_set(items, _update_helper._u(c), A)
+        return {"Asel0": (A0, facts), "Asel": (Val(SInt, A), [fa, card_is_cnt(A, l_len(items))] + card_facts(A)), "Chg": (Val(SInt, C), cfacts)}
+
+    @staticmethod
+    def _exc(c):
+        # a raising callable / late validation: primary storage and index untouched (C11)
+        i = z3.Int(fresh_name("i"))
+        items = c.self.t["_storage"].t["items"].t
+        u = _update_helper._u(c)
+        when = z3.Exists([i], z3.And(z3.Select(c.Asel.t, i), upd_raises(u, dec(l_at(items, i)))))
+
+        def ens(cc):
+            return [("primary_storage_untouched", cc.self.t["_storage"].t["items"].t == cc.old.self.t["_storage"].t["items"].t)] + dbinv_no_temp(cc.self)
+        return dict(when=when, ensures=ens, exact=False)
+
+    raises = {"ValueError": staticmethod(lambda c: dict(when=bad_update_args(*[getattr(c, a).t for a in UPD_ARGS]),
+                                                        ensures=lambda cc: [("nothing_changed", z3.And(cc.self.t["_storage"].t["items"].t == cc.old.self.t["_storage"].t["items"].t,
+                                                                                                     cc.self.t["_storage"].t["temp"].t == cc.old.self.t["_storage"].t["temp"].t))] + dbinv(cc.self))),
+              "UserError": staticmethod(lambda c: _update_helper._exc(c))}
+
+    @staticmethod
+    def ensures(c):
+        items0, items1 = c.old.self.t["_storage"].t["items"].t, c.self.t["_storage"].t["items"].t
+        C = c.Chg.t
+        return [("returns_number_changed", c.result.t == card(C)),
+                ("no_change_leaves_storage_untouched", z3.Implies(card(C) == 0, items1 == items0)),
+                ] + updated_view(items1, items0, C, _update_helper._u(c)) + dbinv_no_temp(c.self)
+
+    @staticmethod
+    def _common(c, t):
+        items = c.old.self.t["_storage"].t["items"].t
+        stg = c.self.t["_storage"].t
+        temp = stg["temp"].t
+        C, u = c.Chg.t, _update_helper._u(c)
+        i = z3.Int(fresh_name("i"))
+        return [
+            ("updater", c.perform_update.t == u),
+            ("primary_untouched", z3.And(stg["items"].t == items, *[c.self.t["_index"].t[a].t == c.old.self.t["_index"].t[a].t for a in c.old.self.t["_index"].t])),
+            ("update_count", c.update_count.t == cnt(C, t)),
+            ("temp_len", l_len(temp) == t),
+            ("temp_changed", forall([i], z3.Implies(z3.And(0 <= i, i < t, z3.Select(C, i)), dec(l_at(temp, i)) == upd_result(u, dec(l_at(items, i)))),
+                                    patterns=[l_at(temp, i), z3.Select(C, i)])),
+            ("temp_others", forall([i], z3.Implies(z3.And(0 <= i, i < t, z3.Not(z3.Select(C, i))), l_at(temp, i) == l_at(items, i)),
+                                   patterns=[l_at(temp, i), z3.Select(C, i)])),
+            ("no_raise_so_far", forall([i], z3.Implies(z3.And(0 <= i, i < t, z3.Select(c.Asel.t, i)), z3.Not(upd_raises(u, dec(l_at(items, i))))), patterns=[z3.Select(c.Asel.t, i)])),
+        ]
+
+    @staticmethod
+    def _inv_index(c):
+        t = c.loop(0).t
+        A, C = c.Asel.t, c.Chg.t
+        return [("index_answer_is_selection", c.index_rst.t["_items"].t == c.Asel0.t), ("not_update_all", z3.Not(c.update_all.t)),
+                ("j_counts_unchanged_candidates", c.j.t == cnt(A, t) - cnt(C, t))] + _update_helper._common(c, t)
+
+    loops = {0: dict(inv=lambda c: _update_helper._inv_index(c)), 1: dict(inv=lambda c: _update_helper._common(c, c.loop(1).t))}
+
+
+def _upd_view(c):
+    """present update()/update_all() arguments as _update_helper's"""
+    class V:
+        def __getattr__(self, n):
+            if n == "old":
+                return _upd_view(c.old) if c.old is not None else None
+            return getattr(c, n)
+    return V()
+
+
+def _update_public(name, is_all):
+    class _c(Contract):
+        params = dict(self=DB, **({} if is_all else dict(query=Q)), time=AnyV, measurement=AnyV, tags=AnyV, fields=AnyV, unset_fields=AnyV, unset_tags=AnyV,
+                      **({} if is_all else dict(_measurement=OStr)))
+        defaults = dict({a: (lambda ex: Val(AnyV, AV_NONE)) for a in UPD_ARGS}, _measurement=NONE_STR)
+        ret = TInt
+        modifies = ("_storage", "_index")
+        theories = ("queries", "dbqueries", "count")
+
+        @staticmethod
+        def _h(c):
+            """context for the helper's clauses"""
+            extra = {}
+            if is_all:
+                extra = dict(query=Val(Q, q_noop_tags), _measurement=Val(OStr, o_none(OStr)), update_all=mk_bool(True))
+            else:
+                extra = dict(update_all=mk_bool(False))
+
+            class V:
+                def __getattr__(self, n):
+                    if n in extra:
+                        return extra[n]
+                    if n == "old":
+                        return _c._h(c.old) if c.old is not None else None
+                    return getattr(c, n)
+            return V()
+
+        @staticmethod
+        def requires(c):
+            return dbinv(c.self) + ([] if is_all else _wfquery(c))
+
+        @staticmethod
+        def ghost_defs(c):
+            return _update_helper.ghost_defs(_c._h(c))
+
+        @staticmethod
+        def ensures(c):
+            h = _c._h(c)
+            items0, items1 = c.old.self.t["_storage"].t["items"].t, c.self.t["_storage"].t["items"].t
+            C = c.Chg.t
+            return [("returns_number_changed", c.result.t == card(C)), ("no_change_leaves_storage_untouched", z3.Implies(card(C) == 0, items1 == items0)),
+                    ] + updated_view(items1, items0, C, _update_helper._u(h)) + dbinv(c.self)
+
+        @staticmethod
+        def _exc(c, which):
+            h = _c._h(c)
+            spec = _update_helper.raises[which](h)
+            ok = z3.And(c.self.t["_storage"].t["readable"].t, c.self.t["_storage"].t["writable"].t)
+
+            def ens(cc):
+                # C11: an operation that raises leaves the database as it was, and still usable
+                return [("primary_storage_untouched", cc.self.t["_storage"].t["items"].t == cc.old.self.t["_storage"].t["items"].t)] + dbinv(cc.self)
+            return dict(when=z3.And(ok, spec["when"]), ensures=ens, exact=spec.get("exact", True))
+
+        raises = dict(WRITE_RAISES, ValueError=staticmethod(lambda c: _c._exc(c, "ValueError")), UserError=staticmethod(lambda c: _c._exc(c, "UserError")))
+
+    contract(_TF + name)(_c)
+    return _c
+
+
+_update = _update_public("update", False)
+_update_all = _update_public("update_all", True)
